@@ -3,3 +3,4 @@ states that every reconnect performs (Properties/FnSession). -/
 import PahoProofs.Properties.C01
 import PahoProofs.Properties.FnSession
 import PahoProofs.Properties.FnInfo
+import PahoProofs.Properties.SessionOrder
